@@ -97,16 +97,14 @@ def digitBytes : Nat → Nat → Bytes
   | fuel + 1, n =>
     if n < 10 then [UInt8.ofNat (48 + n)] else digitBytes fuel (n / 10) ++ [UInt8.ofNat (48 + n % 10)]
 
-theorem natDigits_bytes (fuel n : Nat) :
-    (natDigits fuel n).flatMap (fun c => String.utf8EncodeChar c) = digitBytes fuel n := by
+theorem natDigits_bytes (fuel n : Nat) : natDigits fuel n = digitBytes fuel n := by
   induction fuel generalizing n with
   | zero => rfl
   | succ f ih =>
     unfold natDigits digitBytes
     split
-    · rename_i h; simp [enc_digit n h]
-    · rw [List.flatMap_append, ih]
-      simp [enc_digit (n % 10) (Nat.mod_lt _ (by omega))]
+    · rfl
+    · rw [ih]
 
 /-- value of a digit string -/
 def digitsVal (b : Bytes) : Nat := b.foldl (fun a x => a * 10 + (x.toNat - 48)) 0
@@ -143,7 +141,7 @@ theorem digitBytes_ge (fuel n : Nat) : ∀ x ∈ digitBytes fuel n, 48 ≤ x.toN
 theorem epochStr_eq (h : Int) :
     epochStr h = if h < 0 then 45 :: digitBytes (h.natAbs + 1) h.natAbs else digitBytes (h.natAbs + 1) h.natAbs := by
   unfold epochStr
-  simp only [utf8_ofList, natDigits_bytes]
+  simp only [natDigits_bytes]
 
 /-- **decimal rendering is injective**: `strconv.FormatInt(·, 10)` of two different hours differ -/
 theorem epochStr_injective (a b : Int) (h : epochStr a = epochStr b) : a = b := by
